@@ -1164,13 +1164,17 @@ class Table:
         expressions = parse_filter_dict(filter_dict) if filter_dict else []
         compute_expr = to_pyarrow_compute_expression(expressions) if expressions else None
 
-        data_files = self._get_all_data_files()
+        # ONE metadata resolution per read: emptiness, the file list and the
+        # schema all describe the same committed version, whatever commits
+        # land while this read is running.
+        metadata = self.metadata_manager.refresh()
+        data_files = self._data_files_of(metadata)
         if not data_files:
             return None
 
         # File-level pruning via column bounds
         if expressions:
-            schema = self._get_current_schema()
+            schema = self._get_current_schema(metadata)
             if schema:
                 data_files = prune_files_by_bounds(data_files, expressions, schema)
         if not data_files:
@@ -1294,9 +1298,11 @@ class Table:
         expressions = parse_filter_dict(filter) if filter else []
         compute_expr = to_pyarrow_compute_expression(expressions) if expressions else None
 
-        data_files = self._get_all_data_files()
+        # ONE metadata resolution per read (see _scan_table).
+        metadata = self.metadata_manager.refresh()
+        data_files = self._data_files_of(metadata)
         if expressions and data_files:
-            schema = self._get_current_schema()
+            schema = self._get_current_schema(metadata)
             if schema:
                 data_files = prune_files_by_bounds(data_files, expressions, schema)
 
@@ -1448,13 +1454,28 @@ class Table:
         manifest (list) raises instead of returning partial/empty results -
         readers must be able to distinguish "empty table" from "broken table".
         """
-        snapshot = self.current_snapshot()
+        return self._data_files_of(self.metadata_manager.refresh())
+
+    def _data_files_of(self, metadata: Optional[TableMetadata]) -> List[DataFile]:
+        """The data files of the current snapshot of `metadata` (one resolved
+        metadata version; None = the table has no metadata).
+
+        The snapshot and the "is the table empty?" decision are taken from the
+        SAME metadata object: resolving the pointer a second time let a commit
+        that landed in between make an empty table look inconsistent (the
+        first resolution saw no snapshot, the second a set current_snapshot_id).
+        """
+        current_id = metadata.current_snapshot_id if metadata else None
+        snapshot = None
+        if metadata is not None and current_id is not None:
+            for candidate in metadata.snapshots:
+                if candidate.snapshot_id == current_id:
+                    snapshot = candidate
+                    break
         if not snapshot:
             # An unset current_snapshot_id means "empty table". A SET id that
             # resolves to nothing means the metadata is inconsistent - returning
             # [] there would report a broken table as an empty one (#48).
-            metadata = self.metadata_manager.refresh()
-            current_id = metadata.current_snapshot_id if metadata else None
             if current_id is not None and current_id != -1:
                 raise RuntimeError(
                     f"Table metadata is inconsistent: current_snapshot_id {current_id} "
@@ -1514,13 +1535,20 @@ class Table:
         """
         return self._get_all_data_files()
 
-    def _get_current_schema(self) -> Optional[Schema]:
+    def _get_current_schema(
+        self, metadata: Optional[TableMetadata] = None
+    ) -> Optional[Schema]:
         """Get the current schema from metadata.
+
+        Args:
+            metadata: Metadata the caller has already resolved (a read uses ONE
+                metadata version for files and schema). Resolved now if None.
 
         Returns:
             Current Schema object, or None if the table has no schema.
         """
-        metadata = self.metadata_manager.refresh()
+        if metadata is None:
+            metadata = self.metadata_manager.refresh()
         if metadata and metadata.schemas:
             # Find current schema by ID
             for schema in metadata.schemas:
